@@ -188,7 +188,7 @@ Next ==
                    res |-> [ok |-> r.ok, err |-> r.err, errc |-> ErrClass(r.err), panic |-> FALSE, feff |-> "", burned |-> "", hookErr |-> r.err,
                            same |-> TRUE, detn |-> 0, det |-> TRUE, detDiff |-> ""],
                    probes |-> IF e.ev = "BeginBlock" THEN <<>> ELSE SetToSeq1(ModelProbes(post)), mirror |-> <<>>]
-           gh2 == GhostNext(gh, st, rec, post)
+           gh2 == GhostNext(gh, st, rec, post, TRUE)
            j == Judge(st, rec, post, gh, gh2)
        IN  /\ (e.ev = "BeginBlock" => post.height <= MaxBlocks + 1)
            /\ st' = post
